@@ -827,7 +827,18 @@ func argBound(info *types.Info, e *engines, cc *ast.CaseClause, obj types.Object
 				}
 				n++
 				if len(as.Lhs) == len(as.Rhs) {
-					if c, ok := eng.Unparen(as.Rhs[i]).(*ast.CallExpr); ok {
+					rhs := eng.Unparen(as.Rhs[i])
+					for { // integer conversions of the operand are the operand
+						c, ok := rhs.(*ast.CallExpr)
+						if !ok || len(c.Args) != 1 {
+							break
+						}
+						if tv, ok := info.Types[c.Fun]; !ok || !tv.IsType() {
+							break
+						}
+						rhs = eng.Unparen(c.Args[0])
+					}
+					if c, ok := rhs.(*ast.CallExpr); ok {
 						if fn := eng.CalleeOf(info, c); fn != nil && e.vm.Prims[fn] == "arg" {
 							good++
 						}
